@@ -54,6 +54,8 @@ var entities = []entity{
 	{"&#35;", "#"}, {"&#1234;", "Ӓ"}, {"&#992;", "Ϡ"}, {"&#0;", "�"}, {"&#x22;", "\""}, {"&#XD06;", "ആ"},
 	{"&#xcab;", "ಫ"}, {"&#65;", "A"}, {"&#065;", "A"}, {"&#0000065;", "A"}, {"&#x41;", "A"}, {"&#x0041;", "A"},
 	{"&#42;", "*"}, {"&#95;", "_"}, {"&#96;", "`"}, {"&#91;", "["}, {"&#60;", "<"}, {"&#10;", "\n"}, {"&#9;", "\t"}, {"&#32;", " "},
+	// the digit limits (1-7 decimal, 1-6 hexadecimal digits): one digit more is not a character reference, wherever it is written
+	{"&#x000041;", "A"}, {"&#x0000041;", "&#x0000041;"}, {"&#00000065;", "&#00000065;"}, {"&#X0000022;", "&#X0000022;"}, {"&nosuchname;", "&nosuchname;"},
 }
 
 // numEnt is a numeric character reference to a code point drawn from the whole range (decimal or hexadecimal,
